@@ -29,9 +29,9 @@ func runC11(c *Ctx) {
 	r := c.R
 	t0 := time.Now()
 	defer func() { r.Extra["rule_eval_s"] = time.Since(t0).Seconds() }()
-	r.Rule("C11.R1", "every use of PeerConnection.sdpOrigin is `&pc.sdpOrigin` passed to updateSDPOrigin; inside updateSDPOrigin every use of the saved origin is `&origin.SessionVersion` / `&origin.SessionID` as the address operand of a sync/atomic call; every call site of updateSDPOrigin holds pc.mu exclusively", 7)
+	r.Rule("C11.R1", "every use of PeerConnection.sdpOrigin is `&pc.sdpOrigin` passed to updateSDPOrigin; inside updateSDPOrigin every use of the saved origin is `&origin.SessionVersion` / `&origin.SessionID` as the address operand of a sync/atomic call; every call site of updateSDPOrigin (or, for a lock-free unexported helper, every caller of the helper) holds pc.mu exclusively", 6)
 	r.Rule("C11.R2", "updateSDPOrigin: the first-use test is CompareAndSwapUint64(&origin.SessionVersion, 0, descr.Origin.SessionVersion); when it succeeds the description's session id is stored and the description is left untouched; when it fails every path to the exit writes descr.Origin.SessionID from an atomic load of the saved id and descr.Origin.SessionVersion from AddUint64(&origin.SessionVersion, c) with constant c >= 1, and nothing else writes them", 5)
-	r.Rule("C11.R3", "in CreateOffer and CreateAnswer every Marshal of a session description is preceded, on every path from the description's definition, by updateSDPOrigin(&pc.sdpOrigin, <that description>)", 2)
+	r.Rule("C11.R3", "in CreateOffer and CreateAnswer every Marshal of a session description (direct, or inside a same-package helper the description is handed to) is preceded, on every path from the description's definition, by updateSDPOrigin(&pc.sdpOrigin, <that description>); the order may be established inside the helper", 2)
 	r.NotCovered = append(r.NotCovered, "uint64 wrap-around of the version", "the library's initial random session id / version (a zero id makes the wait loop spin; a zero version re-initialises)", "descriptions produced by other means than CreateOffer/CreateAnswer")
 	r.Trusted = append(r.Trusted, "sync/atomic semantics", "must-lockset analysis (core/locks.go)")
 
@@ -230,7 +230,9 @@ func c11R1(c *Ctx, upd *core.FuncInfo, originF, verF, idF *types.Var) {
 	}
 	r.Check(escapes == 0, "C11.R1", "updateSDPOrigin|origin-pointer-does-not-escape", c.P.Pos(upd.Decl.Pos()), "the saved origin is only used through field addresses", sprintf("the origin pointer is used %d time(s) other than through a field selection (copied or passed on): accesses through the copy are not checked", escapes))
 
-	// (c) call sites hold pc.mu exclusively
+	// (c) call sites hold pc.mu exclusively. A call site inside an unexported helper that never
+	// touches pc.mu itself counts as "under pc.mu" when every call site of the helper (module-wide,
+	// transitively through further such helpers) holds it exclusively; one obligation per root caller.
 	nSites := 0
 	c11Bodies(c, func(bg *core.Graph, name string, fi *core.FuncInfo) {
 		var li *core.LockInfo
@@ -258,14 +260,146 @@ func c11R1(c *Ctx, upd *core.FuncInfo, originF, verF, idF *types.Var) {
 				case mode == "R":
 					r.Fail("C11.R1", key, c.P.Pos(call.Pos()), "updateSDPOrigin is called under pc.mu.RLock only: two generations can run concurrently and their marshalled versions can be observed out of order")
 				default:
-					r.Fail("C11.R1", key, c.P.Pos(call.Pos()), "updateSDPOrigin is called without pc.mu: a concurrent CreateOffer/CreateAnswer can take a later version and return first")
+					// not held here: is this body a lock-free unexported helper whose callers all hold pc.mu?
+					roots, why := c11CallerLocks(c, bg, fi, 3, map[*core.FuncInfo]bool{})
+					if why != "" {
+						r.Fail("C11.R1", key, c.P.Pos(call.Pos()), "updateSDPOrigin is called without pc.mu ("+why+"): a concurrent CreateOffer/CreateAnswer can take a later version and return first")
+						continue
+					}
+					for _, rt := range roots {
+						k := "updateSDPOrigin-call|in:" + name + "<-" + rt.name + "|holds-pc.mu-exclusively"
+						switch rt.mode {
+						case "W":
+							r.OK("C11.R1", k, rt.pos, "the helper takes no lock itself and this caller holds pc.mu in write mode")
+						case "R":
+							r.Fail("C11.R1", k, rt.pos, "this caller reaches updateSDPOrigin (through "+name+") under pc.mu.RLock only: two generations can run concurrently and their marshalled versions can be observed out of order")
+						default:
+							r.Fail("C11.R1", k, rt.pos, "this caller reaches updateSDPOrigin (through "+name+") without pc.mu ("+rt.why+"): a concurrent CreateOffer/CreateAnswer can take a later version and return first")
+						}
+					}
 				}
 			}
 		}
 	})
-	if nSites < 2 {
-		r.Fail("C11.R1", "updateSDPOrigin-call|sites", "-", sprintf("expected call sites in CreateOffer and CreateAnswer, found %d", nSites))
+	if nSites < 1 {
+		r.Fail("C11.R1", "updateSDPOrigin-call|sites", "-", "updateSDPOrigin is never called: generated descriptions do not share a saved origin")
 	}
+}
+
+type c11Root struct {
+	name, mode, pos, why string
+}
+
+// c11CallerLocks: body bg (of declared function fi; a literal has name != fi's) does not hold pc.mu at the
+// point of interest. If it is the body of an unexported declared function that performs no operation on
+// pc.mu itself and whose function value never escapes, return for every call site (module-wide) the lock mode
+// held there - recursing through further such helpers. why != "" means the inference does not apply.
+func c11CallerLocks(c *Ctx, bg *core.Graph, fi *core.FuncInfo, depth int, seen map[*core.FuncInfo]bool) ([]c11Root, string) {
+	if _, isLit := bg.Fn.(*ast.FuncLit); isLit {
+		return nil, "inside a function literal that does not take the lock"
+	}
+	if fi.Obj.Exported() {
+		return nil, "in an exported function, callable without the lock"
+	}
+	if depth <= 0 || seen[fi] {
+		return nil, "helper chain too deep or recursive"
+	}
+	seen[fi] = true
+	for _, o := range core.Locks(bg).Ops {
+		if o.Class == c11MuClass {
+			return nil, "the enclosing function operates pc.mu itself but does not hold it here"
+		}
+	}
+	var roots []c11Root
+	why := ""
+	c11Bodies(c, func(cg *core.Graph, cname string, cfi *core.FuncInfo) {
+		if why != "" {
+			return
+		}
+		var li *core.LockInfo
+		for _, n := range cg.Nodes {
+			if n.Ast == nil {
+				continue
+			}
+			// uses of the helper as a value (method value, assignment) escape the call-site analysis
+			callFuns := map[ast.Expr]bool{}
+			for _, call := range core.CallsIn(n.Ast) {
+				if core.IsCallTo(cg.Info, call, fi.Obj) {
+					callFuns[ast.Unparen(call.Fun)] = true
+				}
+			}
+			core.InspectShallow(n.Ast, func(y ast.Node) bool {
+				switch x := y.(type) {
+				case *ast.SelectorExpr:
+					if cg.Info.Uses[x.Sel] == types.Object(fi.Obj) && !callFuns[x] {
+						why = "the helper " + fi.Name() + " is used as a function value in " + cname
+					}
+					if callFuns[x] {
+						return true
+					}
+				case *ast.Ident:
+					if cg.Info.Uses[x] == types.Object(fi.Obj) && !callFuns[x] {
+						// the Sel of a selector in call position is visited too: accept when its parent selector is the callee
+						ok := false
+						for f := range callFuns {
+							if se, isSel := f.(*ast.SelectorExpr); isSel && se.Sel == x {
+								ok = true
+							}
+						}
+						if !ok {
+							why = "the helper " + fi.Name() + " is used as a function value in " + cname
+						}
+					}
+				}
+				return true
+			})
+			for _, call := range core.CallsIn(n.Ast) {
+				if !core.IsCallTo(cg.Info, call, fi.Obj) {
+					continue
+				}
+				pos := c.P.Pos(call.Pos())
+				if _, isGo := n.Ast.(*ast.GoStmt); isGo {
+					roots = append(roots, c11Root{name: cname, pos: pos, why: "started with go"})
+					continue
+				}
+				if _, isDefer := n.Ast.(*ast.DeferStmt); isDefer {
+					roots = append(roots, c11Root{name: cname, pos: pos, why: "deferred call"})
+					continue
+				}
+				// a method helper must be invoked on the caller's own receiver (same PeerConnection, same pc.mu)
+				if se, ok := ast.Unparen(call.Fun).(*ast.SelectorExpr); ok && fi.Decl.Recv != nil {
+					if _, isLit := cg.Fn.(*ast.FuncLit); !isLit && cg.Canon(n.ID, se.X) != "$recv" {
+						roots = append(roots, c11Root{name: cname, pos: pos, why: "helper invoked on another object than the caller's receiver"})
+						continue
+					}
+				}
+				if li == nil {
+					li = core.Locks(cg)
+				}
+				mode := li.HeldClasses(li.In[n.ID])[c11MuClass]
+				if mode == "W" || mode == "R" {
+					roots = append(roots, c11Root{name: cname, mode: mode, pos: pos})
+					continue
+				}
+				sub, w := c11CallerLocks(c, cg, cfi, depth-1, seen)
+				if w != "" {
+					roots = append(roots, c11Root{name: cname, pos: pos, why: w})
+					continue
+				}
+				for _, sr := range sub {
+					sr.name = cname + "<-" + sr.name
+					roots = append(roots, sr)
+				}
+			}
+		}
+	})
+	if why != "" {
+		return nil, why
+	}
+	if len(roots) == 0 {
+		return nil, "the enclosing helper " + fi.Name() + " has no call site"
+	}
+	return roots, ""
 }
 
 func c11R2(c *Ctx, upd *core.FuncInfo, verF, idF *types.Var) {
@@ -441,83 +575,263 @@ func c11R3(c *Ctx, upd *core.FuncInfo, originF *types.Var) {
 			}
 			info := fi.Pkg.TypesInfo
 			ast.Inspect(fi.Decl.Body, func(x ast.Node) bool {
-				if call, ok := x.(*ast.CallExpr); ok && core.CalleeIs(info, call, "github.com/pion/sdp/v3", "SessionDescription.Marshal") {
+				if call, ok := x.(*ast.CallExpr); ok && core.CalleeIs(info, call, c11SDPPath, "SessionDescription.Marshal") {
 					r.Info("C11.R3", "Marshal|in:"+fi.Name(), c.P.Pos(call.Pos()), "a session description is marshalled outside CreateOffer/CreateAnswer (listed by the thorough sweep, not judged)")
 				}
 				return true
 			})
 		}
 	}
+	x := &c11Stamp{c: c, upd: upd, originF: originF, memo: map[string]*c11Summary{}}
 	for _, name := range []string{"PeerConnection.CreateOffer", "PeerConnection.CreateAnswer"} {
 		fi := c.mustFunc("C11.R3", "", name)
 		if fi == nil {
 			continue
 		}
 		g := c.P.GraphOf(fi)
-		info := g.Info
 		key := fi.Name() + "|updateSDPOrigin-before-Marshal"
 		pos := c.P.Pos(fi.Decl.Pos())
-		nMarshal := 0
-		bad := ""
-		for _, n := range g.Nodes {
-			if n.Ast == nil {
-				continue
+		n, via, bad := x.check(g, nil, 2)
+		if n == 0 && bad == "" {
+			bad = "no (*sdp.SessionDescription).Marshal call found (directly or in a same-package helper the description is handed to)"
+		}
+		ok := "each preceded by updateSDPOrigin on the same description"
+		if len(via) > 0 {
+			ok += " (established inside " + strings.Join(via, ", ") + ")"
+		}
+		r.Check(bad == "", "C11.R3", key, pos, sprintf("%d Marshal point(s), %s", n, ok), bad)
+	}
+}
+
+const c11SDPPath = "github.com/pion/sdp/v3"
+
+// c11Summary describes what a same-package helper does with the description passed as one parameter.
+type c11Summary struct {
+	marshals   int    // Marshal points on the parameter inside the helper (transitively)
+	safe       bool   // every one of them is preceded, inside the helper, by the update
+	bad        string // why not safe
+	updatesAll bool   // every path entry -> exit passes the update of the parameter
+	sameOrigin bool   // the update uses &<receiver>.sdpOrigin (the caller must invoke the helper on its own receiver)
+}
+
+type c11Stamp struct {
+	c       *Ctx
+	upd     *core.FuncInfo
+	originF *types.Var
+	memo    map[string]*c11Summary
+}
+
+// isUpdate: node contains updateSDPOrigin(&<recv>.sdpOrigin, D) (not go/defer).
+func (x *c11Stamp) isUpdate(g *core.Graph, n *core.Node, D *types.Var) bool {
+	if n.Ast == nil {
+		return false
+	}
+	switch n.Ast.(type) {
+	case *ast.GoStmt, *ast.DeferStmt:
+		return false
+	}
+	for _, uc := range core.CallsIn(n.Ast) {
+		if core.IsCallTo(g.Info, uc, x.upd.Obj) && len(uc.Args) == 2 && core.VarOf(g.Info, uc.Args[1]) == D {
+			if u, ok := ast.Unparen(uc.Args[0]).(*ast.UnaryExpr); ok && u.Op == token.AND && core.FieldOf(g.Info, u.X) == x.originF {
+				return true
 			}
-			for _, call := range core.CallsIn(n.Ast) {
-				if !core.CalleeIs(info, call, "github.com/pion/sdp/v3", "SessionDescription.Marshal") {
-					continue
-				}
+		}
+	}
+	return false
+}
+
+// helperCall: does node n hand D to a same-package declared helper invoked on the caller's own receiver
+// (or a plain function)? Returns the helper and the parameter index.
+func (x *c11Stamp) helperCalls(g *core.Graph, n *core.Node, D *types.Var) (out []struct {
+	fi   *core.FuncInfo
+	pidx int
+	call *ast.CallExpr
+}) {
+	if n.Ast == nil {
+		return nil
+	}
+	switch n.Ast.(type) {
+	case *ast.GoStmt, *ast.DeferStmt:
+		return nil
+	}
+	for _, call := range core.CallsIn(n.Ast) {
+		h := x.c.P.DeclOf(core.Callee(g.Info, call))
+		if h == nil || h.Decl.Body == nil || h == x.upd || h.Pkg != g.Owner.Pkg {
+			continue
+		}
+		if se, ok := ast.Unparen(call.Fun).(*ast.SelectorExpr); ok && h.Decl.Recv != nil {
+			if g.Canon(n.ID, se.X) != "$recv" {
+				continue // invoked on another object: its saved origin is not ours
+			}
+		}
+		for i, a := range call.Args {
+			if core.VarOf(g.Info, a) == D {
+				out = append(out, struct {
+					fi   *core.FuncInfo
+					pidx int
+					call *ast.CallExpr
+				}{h, i, call})
+			}
+		}
+	}
+	return out
+}
+
+func (x *c11Stamp) summary(h *core.FuncInfo, pidx, depth int) *c11Summary {
+	k := sprintf("%s#%d", h.Name(), pidx)
+	if s, ok := x.memo[k]; ok {
+		return s
+	}
+	s := &c11Summary{}
+	x.memo[k] = s // recursion guard: an unfinished summary claims nothing
+	hg := x.c.P.GraphOf(h)
+	_, params := hg.ParamVars()
+	if depth <= 0 || pidx >= len(params) {
+		return s
+	}
+	P := params[pidx]
+	// the parameter must not be re-bound inside the helper
+	for _, d := range hg.AllDefs(P) {
+		if d.Node >= 0 {
+			s.bad = "the helper " + h.Name() + " re-assigns its description parameter"
+			return s
+		}
+	}
+	n, _, bad := x.check(hg, P, depth-1)
+	s.marshals, s.bad, s.safe = n, bad, bad == ""
+	// every path to the exit passes an update point of P
+	upd := map[int]bool{}
+	for _, nd := range hg.Nodes {
+		if x.isUpdate(hg, nd, P) {
+			upd[nd.ID] = true
+		}
+		for _, hc := range x.helperCalls(hg, nd, P) {
+			if x.summary(hc.fi, hc.pidx, depth-1).updatesAll {
+				upd[nd.ID] = true
+			}
+		}
+	}
+	s.updatesAll = len(upd) > 0 && !hg.Reach([]int{hg.Entry}, func(id int) bool { return upd[id] }, nil)[hg.Exit]
+	return s
+}
+
+// check examines every Marshal point of graph g (only: of variable only, when non-nil): a direct
+// D.Marshal() or a call handing D to a helper that marshals it. Each must be stamped: either the helper
+// establishes update-before-Marshal itself, or from every definition of D reaching the point the point is
+// unreachable without passing an update point (a direct updateSDPOrigin(&pc.sdpOrigin, D) or a helper
+// that always updates D). Returns the number of Marshal points, the helpers that established the order
+// themselves, and the first failure.
+func (x *c11Stamp) check(g *core.Graph, only *types.Var, depth int) (n int, via []string, bad string) {
+	c := x.c
+	info := g.Info
+	type point struct {
+		node   int
+		D      *types.Var
+		pos    token.Pos
+		inside *c11Summary
+		helper string
+	}
+	var points []point
+	for _, nd := range g.Nodes {
+		if nd.Ast == nil {
+			continue
+		}
+		for _, call := range core.CallsIn(nd.Ast) {
+			if core.CalleeIs(info, call, c11SDPPath, "SessionDescription.Marshal") {
 				se, _ := ast.Unparen(call.Fun).(*ast.SelectorExpr)
 				if se == nil {
 					continue
 				}
 				D := core.VarOf(info, se.X)
-				nMarshal++
 				if D == nil {
-					bad = "Marshal is applied to an expression that is not a local variable: " + exprStr(se.X)
+					if only == nil {
+						n++
+						bad = "Marshal is applied to an expression that is not a local variable: " + exprStr(se.X)
+					}
 					continue
 				}
-				// update nodes for D
-				updates := map[int]bool{}
-				for _, m := range g.Nodes {
-					if m.Ast == nil {
-						continue
-					}
-					for _, uc := range core.CallsIn(m.Ast) {
-						if core.IsCallTo(info, uc, upd.Obj) && len(uc.Args) == 2 && core.VarOf(info, uc.Args[1]) == D {
-							if u, ok := ast.Unparen(uc.Args[0]).(*ast.UnaryExpr); ok && u.Op == token.AND && core.FieldOf(info, u.X) == originF {
-								if _, isGo := m.Ast.(*ast.GoStmt); !isGo {
-									if _, isDefer := m.Ast.(*ast.DeferStmt); !isDefer {
-										updates[m.ID] = true
-									}
-								}
-							}
-						}
-					}
-				}
-				if len(updates) == 0 {
-					bad = sprintf("the description marshalled at %s is never passed to updateSDPOrigin(&pc.sdpOrigin, ...): it carries the library's fresh random o= line", c.P.Pos(call.Pos()))
+				if only != nil && D != only {
 					continue
 				}
-				// from every definition of D that reaches the Marshal, the Marshal is unreachable without an update
-				var starts []int
-				for _, d := range g.DefsReaching(n.ID, D) {
-					if d.Node >= 0 {
-						starts = append(starts, g.SuccIDs(d.Node)...)
-					} else {
-						starts = append(starts, g.Entry)
+				points = append(points, point{node: nd.ID, D: D, pos: call.Pos()})
+			}
+		}
+		// calls handing a *sdp.SessionDescription local to a helper that marshals it
+		core.InspectShallow(nd.Ast, func(y ast.Node) bool {
+			id, ok := y.(*ast.Ident)
+			if !ok {
+				return true
+			}
+			D, _ := info.Uses[id].(*types.Var)
+			if D == nil || (only != nil && D != only) || !c11IsSessionDescPtr(D.Type()) {
+				return true
+			}
+			for _, hc := range x.helperCalls(g, nd, D) {
+				sm := x.summary(hc.fi, hc.pidx, depth)
+				if sm.marshals == 0 && sm.bad == "" {
+					continue
+				}
+				dup := false
+				for _, p := range points {
+					if p.node == nd.ID && p.D == D && p.helper == hc.fi.Name() {
+						dup = true
 					}
 				}
-				reach := g.Reach(starts, func(x int) bool { return updates[x] }, nil)
-				r.Cells += len(reach)
-				if reach[n.ID] && !updates[n.ID] {
-					bad = sprintf("the description marshalled at %s can reach Marshal without updateSDPOrigin having been applied to it since it was (re)generated: its o= line has a fresh session id / an old version", c.P.Pos(call.Pos()))
+				if !dup {
+					points = append(points, point{node: nd.ID, D: D, pos: hc.call.Pos(), inside: sm, helper: hc.fi.Name()})
+				}
+			}
+			return true
+		})
+	}
+	for _, p := range points {
+		n++
+		if p.inside != nil && p.inside.safe {
+			via = append(via, p.helper)
+			continue
+		}
+		// update points for p.D in this body
+		updates := map[int]bool{}
+		for _, m := range g.Nodes {
+			if x.isUpdate(g, m, p.D) {
+				updates[m.ID] = true
+			}
+			for _, hc := range x.helperCalls(g, m, p.D) {
+				if m.ID != p.node && x.summary(hc.fi, hc.pidx, depth).updatesAll {
+					updates[m.ID] = true
 				}
 			}
 		}
-		if nMarshal == 0 {
-			bad = "no (*sdp.SessionDescription).Marshal call found"
+		where := c.P.Pos(p.pos)
+		if p.inside != nil {
+			where += " (inside " + p.helper + ": " + p.inside.bad + ")"
 		}
-		r.Check(bad == "", "C11.R3", key, pos, sprintf("%d Marshal call(s), each preceded by updateSDPOrigin on the same description", nMarshal), bad)
+		if len(updates) == 0 {
+			bad = sprintf("the description marshalled at %s is never passed to updateSDPOrigin(&pc.sdpOrigin, ...) before: it carries the library's fresh random o= line", where)
+			continue
+		}
+		var starts []int
+		for _, d := range g.DefsReaching(p.node, p.D) {
+			if d.Node >= 0 {
+				starts = append(starts, g.SuccIDs(d.Node)...)
+			} else {
+				starts = append(starts, g.Entry)
+			}
+		}
+		reach := g.Reach(starts, func(id int) bool { return updates[id] }, nil)
+		c.R.Cells += len(reach)
+		if reach[p.node] && !updates[p.node] {
+			bad = sprintf("the description marshalled at %s can reach Marshal without updateSDPOrigin having been applied to it since it was (re)generated: its o= line has a fresh session id / an old version", where)
+		}
 	}
+	return n, via, bad
+}
+
+func c11IsSessionDescPtr(t types.Type) bool {
+	p, ok := t.(*types.Pointer)
+	if !ok {
+		return false
+	}
+	n, ok := p.Elem().(*types.Named)
+	return ok && n.Obj().Pkg() != nil && n.Obj().Pkg().Path() == c11SDPPath && n.Obj().Name() == "SessionDescription"
 }
